@@ -21,7 +21,7 @@ for p in props:
             "technique": c["technique"],
         })
     else:
-        na.append({"property_id": p, "reason": claims["not_applicable"].get(p, "not built yet")})
+        na.append({"property_id": p, "reason": claims["not_applicable"].get(p, "a structural clause is designed in DESIGN.md §5 but its rule is not built; no check is claimed and no verdict is given for this property")})
 m = {
     "version": 1,
     "setup_cmd": "./setup.sh",
